@@ -824,7 +824,71 @@ def special_c07(res, tier, seed, workdir, stats):
     stats.append(check_mod().run_config(res, "C07", tier, seed, "miri-wasm32-simd128", None, info1, workdir, gen_override=g_wasm, executor=exw, label="c07-wasm"))
 
 
-T.SPECIAL.update({"C01": mk_cross("C01", gen_cross_c01, ["s390x", "i686"]), "C05": mk_cross("C05", gen_cross_c05, ["s390x", "i686"]), "C06": mk_cross("C06", gen_cross_c06),
+CORE_LEAN = os.path.join(hh.LEAN, "HH", "Generated", "PortableCore.lean")
+CORE_THMS = {"module_reduction": ["moduleReduction_eq"], "permute": ["permute_eq"], "zipper_merge_and_add": ["zipperPair_eq"],
+             "update": ["update_eq"], "new": ["newState_eq"], "finalize64": ["out64_eq", "finalize64_shape"],
+             "finalize128": ["out128_eq", "finalize128_shape"], "finalize256": ["out256_eq", "finalize256_shape"]}
+
+
+def core_translation(res, tier, seed, workdir, stats):
+    """second tie for the arithmetic core of C01: `coregen` (syn, symbolic execution of straight-line code) translates
+    module_reduction, permute, zipper_merge_and_add, update, the key schedule of new and the round counts / output
+    expressions of finalize64/128/256 from the CURRENT src/portable.rs into Lean (HH/Generated/PortableCore.lean), and
+    each translation is proved equal to the hand-written model for all inputs (by `rfl`: the model mirrors the source).
+    Advisory by construction: a function the translator cannot handle any more is 'not translated'; a translated
+    function whose theorem fails means the source text differs from the model - the dynamic tie then decides, after an
+    escalated search; neither is an alarm by itself."""
+    cdir = os.path.join(hh.ROOT, "harness", "facts")
+    rc, out, err = hh.sh(["cargo", "build", "--offline", "--release", "-q"], cwd=cdir, env={"CARGO_TARGET_DIR": os.path.join(hh.BUILD, "t-facts")}, timeout=1800)
+    info = dict(translator="harness/facts/src/bin/coregen.rs (syn; loops over literal ranges unrolled, &mut array parameters aliased, helper calls inlined)")
+    res.cov["source_translation"] = info
+    if rc != 0:
+        info["status"] = "not executed: translator does not build"
+        return
+    tmp = CORE_LEAN + ".new"
+    status_json = os.path.join(hh.BUILD, "coregen.json")
+    rc, out, err = hh.sh([os.path.join(hh.BUILD, "t-facts", "release", "coregen"), os.path.join(hh.REPO, "src", "portable.rs"), tmp, status_json], timeout=300)
+    if rc != 0:
+        info["status"] = "not executed: src/portable.rs does not parse / translator failed: " + (out + err)[-300:]
+        return
+    new = open(tmp).read()
+    old = open(CORE_LEAN).read() if os.path.exists(CORE_LEAN) else None
+    if new != old:
+        os.replace(tmp, CORE_LEAN)
+    else:
+        os.unlink(tmp)
+    st = json.load(open(status_json))
+    info["functions"] = st
+    translated = [k for k, v in st.items() if v == "translated"]
+    ok, blog = hh.lake_build(["HH.Generated.PortableCore"])
+    thms = ["HH.Gen." + t for f in translated for t in CORE_THMS.get(f, [])]
+    if ok:
+        ax, text = hh.audit_axioms("HH.Generated.PortableCore", thms)
+        good = [t for t in thms if ax.get(t) is not None and not (ax[t] - hh.STD_AXIOMS)]
+        info["theorems_checked"] = good
+        info["status"] = f"{len(translated)}/{len(st)} functions translated from the working tree; {len(good)}/{len(thms)} equality theorems (source translation = model, all inputs) checked by the kernel"
+        if len(good) == len(thms):
+            return
+    # translated but not (all) proved equal: the text of the core differs from the model
+    errs = [l for l in blog.split("\n") if "error" in l][:6]
+    info["status"] = (info.get("status", "") + " | generated theorems do not all check: " + " ".join(errs))[:900]
+    res.notes.append("the translated arithmetic core no longer equals the model by definitional unfolding: escalating the C01 search (thorough generator, Spec oracle)")
+    binp, _ = hh.build_runner("dev-std-base")
+    if binp:
+        i2 = hh.runner_info(binp)
+        st2 = check_mod().run_config(res, "C01", "thorough", seed * 4099 + 11, "dev-std-base", binp, i2, workdir, label="esc-core")
+        stats.append(dict(st2, escalation="core translation"))
+
+
+_c01_cross = mk_cross("C01", gen_cross_c01, ["s390x", "i686"])
+
+
+def special_c01(res, tier, seed, workdir, stats):
+    core_translation(res, tier, seed, workdir, stats)
+    _c01_cross(res, tier, seed, workdir, stats)
+
+
+T.SPECIAL.update({"C01": special_c01, "C05": mk_cross("C05", gen_cross_c05, ["s390x", "i686"]), "C06": mk_cross("C06", gen_cross_c06),
                   "C07": special_c07, "C12": mk_cross("C12", gen_cross_c12),
                   "C11": mk_cross("C11", gen_cross_c11, ["s390x", "i686"]), "C13": mk_cross("C13", gen_cross_c13), "C14": mk_cross("C14", gen_cross_c14)})
 T.SPECIAL.update({"C15": special_c15, "C09": special_c09, "C03": special_c03, "C04": special_c04, "C08": special_c08, "C16": special_c16, "C17": special_c17, "C18": special_c18})
